@@ -272,6 +272,25 @@ def is_core(op):
     return True
 
 
+def is_small(op):
+    """third-level alphabet of the thorough tier"""
+    k = op[0]
+    if k == "inject":
+        return op[3] and (op[1], op[2]) in (("for-me", 1), ("forward-child", 65), ("forward-up", 1), ("multicast", 1), ("poll", 194),
+                                            ("for-me-addr-request", 195), ("for-me-nack", 193), ("short", 0))
+    if k == "send":
+        return (op[2], op[3]) in ((1, 0), (65, 0)) or ((op[2], op[3]) == (1, 25) and not op[4])
+    if k == "multicast":
+        return (op[1], op[2]) == (None, 5)
+    if k == "node_address":
+        return op[1] == O("2")
+    if k == "multicast_level":
+        return op[1] == 0
+    if k in ("write-direct", "send-invalid", "send-too-long"):
+        return False
+    return True
+
+
 def canon(state):
     w, node, radio, ghost = state[:4]
     return (radio.snapshot(), H.driver_state(node, drop=("_spi", "_ce_pin", "_in", "_out", "_rf24", "block_less_callback", "frame_buf")))
@@ -294,10 +313,11 @@ def w_init(item, rep):
     spec = INITS[init_name]
     ops = alphabet_for(spec, tier)
     first_ops = ops if sub is None else ops[sub[0]::sub[1]]
-    core = [o for o in ops if is_core(o)] if tier == "quick" else ops
+    core = [o for o in ops if is_core(o)]
+    small = [o for o in core if is_small(o)]
 
     def alphabet(st):
-        return ops if st[4] == 0 else core
+        return ops if st[4] == 0 else (core if st[4] == 1 else small)
 
     def apply(st, op, hist):
         w = st[0]
@@ -362,7 +382,8 @@ def run(tier, seed, rep, only=None):
         for i in range(nsplit):
             items.append((name, tier if tier == "quick" else "thorough", seed, depth, (i, nsplit)))
     pmap(w_init, items, rep)
-    sizes = {n: [len(alphabet_for(INITS[n], tier)), len([o for o in alphabet_for(INITS[n], tier) if tier != "quick" or is_core(o)])] for n in INITS}
+    sizes = {n: [len(alphabet_for(INITS[n], tier)), len([o for o in alphabet_for(INITS[n], tier) if is_core(o)]),
+                 len([o for o in alphabet_for(INITS[n], tier) if is_core(o) and is_small(o)])] for n in INITS}
     rep.sample({"init": "net-12", "ops": [["send", O("5"), 65, 5, True, True], ["inject", "forward-child", 65, False]]})
     return dict(
         level="model_checking",
@@ -371,7 +392,7 @@ def run(tier, seed, rep, only=None):
              "answer: next hop acknowledges / stays silent, NETWORK_ACK or lookup reply injected / missing; update() after each class of injected "
              "frame), on deep-copied simulated worlds with canonical state dedup; the post-condition is evaluated on the simulated hardware after "
              "every call. distinct non-trivial = distinct (initial state, operation sequence)." % (len(INITS), depth),
-        bounds=dict(depth=depth, alphabet_sizes_first_level_and_below=sizes, inits=list(INITS)),
+        bounds=dict(depth=depth, alphabet_sizes_level1_level2_level3=sizes, inits=list(INITS)),
         trusted_base=["vf/sim.py", "vf/net.py: listening_violations/expected_pipes (reference pipe addresses from docs/network_docs/topology.rst)"],
         assumptions=["connected mesh nodes are put on their address with the library's own _begin() (successful joins are explored by C17, which "
                      "evaluates the same post-condition)", "mesh calls are given short timeouts"],
